@@ -83,13 +83,17 @@ Definition addPKCS1SHA1Prefix (data : list Z) (withNULL : bool) : res (list Z) :
     | Some p => Ok (p ++ data) | None => Err KeyError end
   else Ok (sha1_prefix_no_null ++ data).
 
+(* since /repo 693c302 both refuse when the padding string would have fewer than 8 bytes
+   (RFC 8017 9.2 step 3) *)
 Definition raw_pkcs1_sign (n : Z) (priv : Z -> Z) (data : list Z) : res (list Z) :=
+  if numBytes n <? zlen data + 11 then Err ValueError else
   raw_private_key_op_bytes n priv (addPKCS1Padding_sig n data).
 
 Definition raw_pkcs1_verify (n e : Z) (sig data : list Z) : bool :=
   match raw_public_key_op_bytes n e sig with
   | Err _ => false                              (* except ValueError: return False *)
-  | Ok check => list_eqb check (addPKCS1Padding_sig n data)
+  | Ok check => if numBytes n <? zlen data + 11 then false
+                else list_eqb check (addPKCS1Padding_sig n data)
   end.
 
 Inductive padding := PadPkcs1 | PadPss | PadOther.
@@ -123,6 +127,8 @@ Section WithHash.
   (* rsakey.py:190-208 *)
   Definition RSASSA_PSS_sign (n : Z) (priv : Z -> Z) (mHash salt : list Z) : res (list Z) :=
     EM <- EMSA_PSS_encode mHash (numBits n - 1) salt ;;
+    (* since /repo cc7bf57: left-pad to the modulus length (emLen = k-1 when modBits = 1 mod 8) *)
+    let EM := zeros (Z.max (numBytes n - zlen EM) 0) ++ EM in
     match raw_private_key_op_bytes n priv EM with
     | Err ValueError => Err MessageTooLongError
     | r => r
@@ -158,6 +164,11 @@ Section WithHash.
     | Err ValueError => Err InvalidSignature
     | Err x => Err x
     | Ok EM =>
+        (* since /repo cc7bf57: the bytes in front of the last emLen ones must be zero *)
+        let emLen := divceil (numBits n - 1) 8 in
+        if existsb (fun x => negb (x =? 0)) (py_slice EM None (Some (zlen EM - emLen)))
+        then Err InvalidSignature else
+        let EM := py_slice EM (Some (zlen EM - emLen)) None in
         r <- EMSA_PSS_verify mHash EM (numBits n - 1) sLen ;;
         if r then Ok true else Err InvalidSignature
     end.
